@@ -247,10 +247,14 @@ def _affected_term(t, root, kind):
 
 
 def _stable(ctx, f, origin, node):
-    """Drop a fact if a value it mentions may be changed between the fact's origin and the node."""
+    """Drop a fact if a value it mentions may change on some path from the fact's origin to the node:
+    a mutation textually between them, or one inside a loop that contains the node but not the origin
+    (then the origin is not re-evaluated after it).  Mutations elsewhere flow through the origin again."""
     roots = set()
     for t in fact_terms(f):
         term_roots(t, roots)
+    op, np_ = _pos(origin), _pos(node)
+    origin_anc = None
     for root in roots:
         if root[0] == "var":
             b = ctx.binds.get(root[1])
@@ -259,14 +263,22 @@ def _stable(ctx, f, origin, node):
         for kind, a in ctx.mutations.get(root, []):
             if not _affected(f, root, kind):
                 continue
-            if a is origin or _is_ancestor(origin, a) and origin.get("k") != "For":
-                # the mutation is part of the guard itself (e.g. inside its condition) — ignore
-                pass
-            if _pos(a) > _pos(node) and not _in_common_loop(a, node):
+            ap = _pos(a)
+            own_rhs = a.get("k") in ("Assign", "AssignOp") and _is_ancestor(a, node)
+            if op <= ap < np_ and not own_rhs:
+                return False
+            if own_rhs and op <= ap:
                 continue
-            if _pos(a) < _pos(origin) and not _in_common_loop(a, node):
-                continue
-            return False
+            # loops around the node that do not contain the origin
+            if origin_anc is None:
+                origin_anc = set(id(x) for x in ancestors(origin)) | {id(origin)}
+            a_anc = None
+            for L in ancestors(node):
+                if L.get("k") in ("For", "While", "Loop") and id(L) not in origin_anc:
+                    if a_anc is None:
+                        a_anc = set(id(x) for x in ancestors(a))
+                    if id(L) in a_anc:
+                        return False
     return True
 
 
